@@ -141,6 +141,11 @@ class Target:
         self.n_points += x.shape[0]
         out = np.array([self.ll_row(x[i]) for i in range(x.shape[0])])
         self.n_finite += int(np.sum(np.isfinite(out)))
+        if getattr(self, "reuse_out", False):
+            # NumPy 'out=' style: the same buffer is filled and returned on every call of the same batch size
+            buf = self.__dict__.setdefault("_bufs", {}).setdefault(len(out), np.empty(len(out)))
+            buf[:] = out
+            return buf
         return out
 
     def loglike_scalar(self, x):
